@@ -446,8 +446,10 @@ def _(gene_db, sam_path, profile_name, output_file, cn_region, cn_solution, geno
     # build of the generated database (opposite strand, different offset)
     requires(other["genome"] != genome)
     phased = gt_typed(True, params.get("phase", True))
-    # own label for the inputs of the defect class /strand-anchor (see gt_strand_anchor)
-    partial = gt_strand_anchor(Gene(gene_db, genome=genome), sam_path)
+    # own label for the inputs of the defect class /strand-anchor (see gt_strand_anchor); evaluated on the '+' strand
+    # build of the pair, whose catalogue the loader takes over from the database without strand conversion
+    plus = [(g, p) for g, p in [(genome, sam_path), (other["genome"], other["sam_path"])] if Gene(gene_db, genome=g).strand > 0]
+    partial = gt_strand_anchor(Gene(gene_db, genome=plus[0][0]), plus[0][1])
     may_raise(AldyException)
     # C13: "The same sample evidence expressed against either supported genome build - and, for a gene database that
     # maps the gene to opposite strands in two builds, against either strand - yields the same gene structures, the
@@ -462,13 +464,20 @@ def _(gene_db, sam_path, profile_name, output_file, cn_region, cn_solution, geno
                                                                              other["cn_region"], other["cn_solution"],
                                                                              other["genome"], False, None, params))[0], what),
                         gt_view(result, what)), label="build/" + what + ("/strand-anchor" if partial else ""))
+    # /several-refinements (max_minor_solutions > 1): the refinement stage lists the first k of the equally good
+    # refinements of a major solution in the order its solver enumerates them, which follows genome positions, so the
+    # two strands list different members of a tie.  Witness: GTA, user structure 2x*1, *1.001 + *3.001 + 0.6 x *3.002,
+    # k = 2, phase=false: hg38 *(1.001 +48_49ins), *3.002 | *(1.001 +38G>T), *3.001; hg19 *(1.001 +38G>T), *3.001 |
+    # *1.001, *(3.001 +38G>T); all four score 3.0242.
+    several = int(params.get("max_minor_solutions", 1)) > 1
     # the refinement: with and without read phasing (own label: the phase term is keyed by genome positions)
     for what in ["minors", "scores"]:
         ensures(gt_same_solutions(gt_view(gt_cached(("other", sam_path), lambda: gt_run(gene_db, other["sam_path"], other["profile_name"], None,
                                                                              other["cn_region"], other["cn_solution"],
                                                                              other["genome"], False, None, params))[0], what),
                         gt_view(result, what)),
-                label="build/" + what + ("/strand-anchor" if partial else "") + ("/phased" if phased else ""))
+                label="build/" + what + ("/strand-anchor" if partial else "") + ("/phased" if phased else "")
+                + ("/several-refinements" if (several and what == "minors") else ""))
     ensures(gt_cached(("other", sam_path), lambda: gt_run(gene_db, other["sam_path"], other["profile_name"], None,
                                                           other["cn_region"], other["cn_solution"], other["genome"],
                                                           False, None, params))[0] is None, on_raise=True, label="build/error")
